@@ -74,10 +74,10 @@ func msNewConn(udp bool) *msConn {
 }
 
 const (
-	vdYes = "Yes"
-	vdNo = "No"
-	vdMore = "More"
-	vdFail = "Fail"
+	vdYes   = "Yes"
+	vdNo    = "No"
+	vdMore  = "More"
+	vdFail  = "Fail"
 	vdPanic = "Panic"
 )
 
@@ -112,20 +112,20 @@ const msAllocBound = 16 * layer4.MaxMatchingBytes
 // ---------------------------------------------------------------- matcher definitions
 
 type msStream struct {
-	b    []byte
-	cls  string // generator class
-	ref  int    // reference predicate on the whole stream: 1 matches, 0 does not, -1 not determined by the wire definition
-	key  string // oracle key suffix override for a recorded finding class ("" = default)
-	refc string // optional reference cross-check case (KRef...)
-	heavy bool  // evaluate only a few prefixes (huge length fields)
+	b     []byte
+	cls   string // generator class
+	ref   int    // reference predicate on the whole stream: 1 matches, 0 does not, -1 not determined by the wire definition
+	key   string // oracle key suffix override for a recorded finding class ("" = default)
+	refc  string // optional reference cross-check case (KRef...)
+	heavy bool   // evaluate only a few prefixes (huge length fields)
 }
 
 type msCfg struct {
-	coq   string                       // mcfg term; may contain %REVAL% (regexp)
-	build func() layer4.ConnMatcher    // fresh, provisioned
-	gate  int                          // bytes up to and including the first magic/length gate
+	coq   string                    // mcfg term; may contain %REVAL% (regexp)
+	build func() layer4.ConnMatcher // fresh, provisioned
+	gate  int                       // bytes up to and including the first magic/length gate
 	gen   func(r *vRng, i int) msStream
-	reval func(b []byte) bool          // regexp only
+	reval func(b []byte) bool // regexp only
 }
 
 type msMatcher struct {
@@ -370,6 +370,16 @@ func msGenPG(r *vRng, i int) msStream {
 		ps := mkParams(1 + r.Intn(3))
 		body := append([]byte{0, 3, 0, 0}, msPgParams(ps)...)
 		return msStream{b: msPgFrame(body), cls: "no-final-terminator", ref: -1}
+	case k == 14 && r.Intn(2) == 0: // payload exactly at / one byte over what the matching buffer can ever hold
+		over := r.Intn(2)
+		val := strings.Repeat("v", layer4.MaxMatchingBytes-4-len("user")-3+over)
+		ps := [][2]string{{"user", val}}
+		enc := startup(3, 0, ps)
+		enc = enc[:layer4.MaxMatchingBytes] // what can be prefetched at most
+		if over == 1 {
+			return msStream{b: enc, cls: "oversize", ref: 0}
+		}
+		return msStream{b: enc, cls: "limit-incomplete", ref: -1}
 	case k == 14: // length larger than the payload that follows (never completes)
 		ps := mkParams(1)
 		enc := startup(3, 0, ps)
@@ -793,6 +803,15 @@ func msGenTLS(r *vRng, i int) msStream {
 	enc := append([]byte{typ}, ver...)
 	enc = append(enc, byte(len(body)>>8), byte(len(body)))
 	enc = append(enc, body...)
+	if i%32 == 3 { // a record that fills the matching buffer exactly
+		big := r.Bytes(layer4.MaxMatchingBytes - 5)
+		enc = append([]byte{22, 3, 1, byte(len(big) >> 8), byte(len(big))}, big...)
+		return msStream{b: enc, cls: "valid-large", ref: 1}
+	}
+	if i%32 == 19 { // the largest length a record header can declare
+		enc = append([]byte{22, 3, 1, 0xff, 0xff}, r.Bytes(40)...)
+		return msStream{b: enc, cls: "incomplete", ref: -1}
+	}
 	if i%16 == 12 { // declared length beyond what follows: never completes
 		binary.BigEndian.PutUint16(enc[3:], uint16(len(body)+1+r.Intn(60000)))
 		return msStream{b: enc, cls: "incomplete", ref: -1}
@@ -821,6 +840,10 @@ func msGenHTTP(r *vRng, i int) msStream {
 		cls, ref = "corrupt-protocol-word", 0
 	case 5: // no request line at all within the stream
 		b := msPrintable(r, r.Intn(40), "")
+		if i%32 == 5 { // the matching buffer fills up before any line ends
+			b = bytes.Repeat([]byte("a"), layer4.MaxMatchingBytes)
+			return msStream{b: b, cls: "full-buffer", ref: -1}
+		}
 		return msStream{b: b, cls: "no-newline", ref: -1}
 	case 6: // a line too short to hold a request line
 		b := append(msPrintable(r, r.Intn(9), ""), '\n')
@@ -926,8 +949,13 @@ func TestVerifMSmall(t *testing.T) {
 					} else {
 						s = msGenPP(r, i/2)
 					}
-					// generated ssh streams never look like PROXY headers and vice versa
-					return flip(func(*vRng, int) msStream { return s }, neg)(r, i)
+					// generated ssh streams never look like PROXY headers and vice versa; both matchers
+					// must have seen enough bytes to decide (12 for proxy_protocol)
+					s = flip(func(*vRng, int) msStream { return s }, neg)(r, i)
+					if len(s.b) < 12 {
+						s.ref = -1
+					}
+					return s
 				}},
 			{coq: "MNot [[MSsh; " + s5.coq + "]]", build: mkNot([]layer4.ConnMatcher{ssh(), s5.build()}), gate: 4,
 				gen: flip(msGenSSH, func(s msStream) int {
@@ -949,6 +977,7 @@ func TestVerifMSmall(t *testing.T) {
 		out.Case(term, cls, nt, sample)
 	}
 	counts := map[string]int{}
+	fullVerdicts := map[string]int{}
 	evals := 0
 
 	for _, mm := range matchers {
@@ -967,6 +996,10 @@ func TestVerifMSmall(t *testing.T) {
 				lens := make([]int, 0, len(s.b)+1)
 				for L := 0; L <= len(s.b); L++ {
 					if s.heavy && L > 0 && L < len(s.b) && L != 4 {
+						continue
+					}
+					// long streams: the first 96 prefixes, every 61st one, and the last 12
+					if len(s.b) > 400 && L > 96 && L < len(s.b)-12 && L%61 != 0 {
 						continue
 					}
 					lens = append(lens, L)
@@ -1020,7 +1053,17 @@ func TestVerifMSmall(t *testing.T) {
 						cx := layer4.WrapConnection(conn, append([]byte{}, s.b[:L]...), zap.NewNop())
 						b0 := msTotalAlloc()
 						msEval(m, cx)
-						if e := msTotalAlloc() - b0; e > msAllocBound {
+						e := msTotalAlloc() - b0
+						for try := 0; try < 2 && e > msAllocBound; try++ {
+							// measure again on a fresh connection: a concurrent runtime allocation must not count
+							cx = layer4.WrapConnection(msNewConn(udp), append([]byte{}, s.b[:L]...), zap.NewNop())
+							b1 := msTotalAlloc()
+							msEval(m, cx)
+							if e2 := msTotalAlloc() - b1; e2 < e {
+								e = e2
+							}
+						}
+						if e > msAllocBound {
 							big[L] = true
 							out.Fail("C04:"+mm.tag+":alloc", fmt.Sprintf("one Match call allocated %d bytes (bound %d)", e, msAllocBound),
 								map[string]any{"matcher": mm.tag, "config": cfg.coq, "prefix_hex": fmt.Sprintf("%x", s.b[:L]), "class": s.cls})
@@ -1029,6 +1072,7 @@ func TestVerifMSmall(t *testing.T) {
 				}
 				// C14: the verdict on the complete first message against the reference
 				full := verd[len(s.b)]
+				fullVerdicts[mm.tag+"/"+s.cls+"/"+full]++
 				in := map[string]any{"matcher": mm.tag, "config": cfg.coq, "stream_hex": fmt.Sprintf("%x", s.b), "class": s.cls, "verdict": full}
 				if s.ref == 1 && full != vdYes && full != vdPanic {
 					k := "rejects-valid"
@@ -1074,6 +1118,7 @@ func TestVerifMSmall(t *testing.T) {
 	msIP(out, rng, n, emit)
 
 	out.Stat("streams_by_class", counts)
+	out.Stat("verdict_on_whole_stream_by_class", fullVerdicts)
 	out.Stat("evaluations", evals)
 }
 
